@@ -947,15 +947,16 @@ Proof.
 Qed.
 
 Section CopyUser.
-  Variables (E : env) (T : tree) (n : N) (pr : list (string * string)) (s d : path).
+  (* [T]: the tree the snapshot of [s] is taken from; [B]: the tree it is added to ([T] plus the
+     intermediate groups of the destination). *)
+  Variables (E : env) (T B : tree) (n : N) (pr : list (string * string)) (s d : path).
   Hypothesis S : SyncRaw E T n pr.
   Hypothesis Us : has_reserved s = false.
   Hypothesis Ud : has_reserved d = false.
   Hypothesis NEs : s <> [].
   Hypothesis NEd : d <> [].
-  Hypothesis Hs : t_has T s = true.
-  Hypothesis Free : forall k, is_prefix d k = true -> t_has T k = false.
-  Hypothesis Gpd : is_group (t_get T (parent d)) = true.
+  Hypothesis Free : forall k, is_prefix d k = true -> t_has B k = false.
+  Hypothesis Gpd : is_group (t_get B (parent d)) = true.
   Let r := rebase s d.
   Definition usub : tree := filter (fun e => negb (has_reserved (fst e))) (t_sub s T).
   Let X := usub.
@@ -995,11 +996,11 @@ Section CopyUser.
     apply has_reserved_skipn in Z. congruence.
   Qed.
 
-  Lemma copy_user_grow : Grow T (T ++ tmap r X).
+  Lemma copy_user_grow : Grow B (B ++ tmap r X).
   Proof.
     constructor.
     - intros p x G. now rewrite t_get_app, G.
-    - intros p o G. rewrite t_get_app in G. destruct (t_get T p) as [x|] eqn:G0; auto.
+    - intros p o G. rewrite t_get_app in G. destruct (t_get B p) as [x|] eqn:G0; auto.
       right. apply t_get_in in G. unfold tmap in G. apply in_map_iff in G as ([k o'] & Ek & I).
       simpl in Ek. inversion Ek; subst. apply cu_in in I as (Gk & P & U).
       assert (NEr : r k <> []).
@@ -1007,7 +1008,7 @@ Section CopyUser.
       repeat split; auto; [now apply cu_user|].
       destruct (list_eq_dec string_dec k s) as [->|Nk].
       + unfold r. rewrite rebase_self, t_get_app.
-        destruct (t_get T (parent d)); [exact Gpd|discriminate].
+        destruct (t_get B (parent d)); [exact Gpd|discriminate].
       + assert (NEk : k <> []) by (intros ->; destruct s; [contradiction|discriminate]).
         pose proof (sraw_parent E T n pr k o S Gk NEk) as PG.
         destruct (t_get T (parent k)) as [g|] eqn:Gp; [|discriminate].
@@ -1015,9 +1016,9 @@ Section CopyUser.
         { apply cu_in. repeat split; auto; [now apply parent_under|].
           apply (user_prefix (parent k) k); auto. now apply is_prefix_parent. }
         unfold r. rewrite (parent_rebase s d k P Nk), t_get_app.
-        assert (t_has T (rebase s d (parent k)) = false).
+        assert (t_has B (rebase s d (parent k)) = false).
         { apply Free, rebase_prefix. now apply parent_under. }
-        unfold t_has in H. destruct (t_get T (rebase s d (parent k))); [discriminate|].
+        unfold t_has in H. destruct (t_get B (rebase s d (parent k))); [discriminate|].
         fold r. now rewrite (cu_get _ _ Ip).
     - intros ND. rewrite map_app. apply NoDup_app_intro; auto; [apply cu_nodup_rX|].
       intros x Ia Ib. rewrite keys_tmap in Ib. apply in_map_iff in Ib as (k & <- & Ik).
@@ -1046,10 +1047,10 @@ Proof.
   intros Us P. rewrite (is_prefix_split s k P) at 2. now rewrite has_reserved_app, Us.
 Qed.
 
-Lemma strip_copy_eq T s d :
+Lemma strip_copy_eq T B s d :
   has_reserved s = false ->
-  (forall k, is_prefix d k = true -> t_has T k = false) ->
-  strip_meta_below (T ++ t_rename s d (t_sub s T)) d = T ++ tmap (rebase s d) (usub T s).
+  (forall k, is_prefix d k = true -> t_has B k = false) ->
+  strip_meta_below (B ++ t_rename s d (t_sub s T)) d = B ++ tmap (rebase s d) (usub T s).
 Proof.
   intros Us Free. unfold strip_meta_below. rewrite filter_app. f_equal.
   - apply filter_all. intros e I. apply in_t_has in I. destruct (is_prefix d (fst e)) eqn:P; auto.
@@ -1071,14 +1072,15 @@ Proof.
 Qed.
 
 (** The part of [copy] that is proved: everything except the re-uuid of copied objects. *)
-Lemma copy_user_raw E T n pr s d :
-  SyncRaw E T n pr -> has_reserved s = false -> has_reserved d = false -> s <> [] -> d <> [] ->
-  t_has T s = true -> (forall k, is_prefix d k = true -> t_has T k = false) ->
-  is_group (t_get T (parent d)) = true ->
-  SyncRaw E (T ++ tmap (rebase s d) (usub T s)) n pr.
+Lemma copy_user_raw E T B n pr s d :
+  SyncRaw E T n pr -> SyncRaw E B n pr ->
+  has_reserved s = false -> has_reserved d = false -> s <> [] -> d <> [] ->
+  (forall k, is_prefix d k = true -> t_has B k = false) ->
+  is_group (t_get B (parent d)) = true ->
+  SyncRaw E (B ++ tmap (rebase s d) (usub T s)) n pr.
 Proof.
-  intros S Us Ud NEs NEd Hs Free Gpd. apply (grow_frame E T); auto.
-  now apply (copy_user_grow E T n pr s d).
+  intros S SB Us Ud NEs NEd Free Gpd. apply (grow_frame E B); auto.
+  now apply (copy_user_grow E T B n pr s d).
 Qed.
 
 (** ** [c_copy], common part: the state after the raw copy *)
@@ -1093,15 +1095,15 @@ Section CopySetup.
 
   Lemma copy_setup :
     exists T0, SyncRaw E T0 (next_id st) (prov st) /\ s <> [] /\ d <> [] /\
-               is_prefix s d = false /\ t_get T0 s = Some o /\
+               t_get T0 s = Some o /\
                (forall k, is_prefix d k = true -> t_has T0 k = false) /\
                is_group (t_get T0 (parent d)) = true /\
-               T1 = T0 ++ t_rename s d (t_sub s T0) /\ Grow (raw st) T0.
+               T1 = T0 ++ t_rename s d (t_sub s (raw st)) /\ Grow (raw st) T0.
   Proof.
     unfold u_copy in UC. destruct s as [|a s']; [discriminate|]. destruct d as [|b d']; [discriminate|].
     set (s0 := a :: s') in *. set (d0 := b :: d') in *.
-    destruct (is_prefix s0 d0 || negb (t_has (raw st) s0) || t_has (raw st) d0) eqn:C; [discriminate|].
-    apply orb_false_iff in C as [C Hd]. apply orb_false_iff in C as [Psd _].
+    destruct (negb (t_has (raw st) s0) || t_has (raw st) d0) eqn:C; [discriminate|].
+    apply orb_false_iff in C as [_ Hd].
     destruct (t_mkgroups (raw st) (parent d0)) as [T0|] eqn:MK; [|discriminate].
     inversion UC; subst T1. unfold t_mkgroups in MK.
     assert (Upd : has_reserved (parent d0) = false).
@@ -1109,7 +1111,7 @@ Section CopySetup.
     destruct (mkgroups_grow _ _ _ _ MK (sr_root _ _ _ _ S) Upd) as [G Gpd].
     change ([] ++ parent d0) with (parent d0) in Gpd.
     exists T0. split; [now apply (grow_frame E (raw st))|]. split; [discriminate|].
-    split; [discriminate|]. split; [exact Psd|]. split; [now apply (gr_mono _ _ G)|].
+    split; [discriminate|]. split; [now apply (gr_mono _ _ G)|].
     split; [apply (free_after_mkgroups E _ _ _ d0 T0 S); auto; discriminate|].
     split; [exact Gpd|]. split; auto.
   Qed.
@@ -1122,12 +1124,11 @@ Lemma copy_raw_without_meta E st o s d :
           (prov (fst (c_copy st o s d true))).
 Proof.
   intros S Us Ud Go. unfold c_copy. destruct (u_copy (raw st) s d) as [T1|] eqn:UC; [|exact S].
-  destruct (copy_setup E st o s d T1 S Us Ud Go UC) as (T0 & S0 & NEs & NEd & Psd & G0 & Free & Gpd & -> & _).
-  assert (Hs : t_has T0 s = true) by (unfold t_has; now rewrite G0).
+  destruct (copy_setup E st o s d T1 S Us Ud Go UC) as (T0 & S0 & NEs & NEd & G0 & Free & Gpd & -> & _).
   unfold c_copy_fixups. destruct o as [[|v] at0]; cbn [okind fst raw next_id prov set_raw].
-  - rewrite strip_copy_eq; auto. now apply copy_user_raw.
-  - rewrite t_rename_tmap, (sub_data_usub E T0 _ _ s S0 Us) by now rewrite G0.
-    now apply copy_user_raw.
+  - rewrite strip_copy_eq; auto. now apply (copy_user_raw E (raw st) T0).
+  - rewrite t_rename_tmap, (sub_data_usub E (raw st) _ _ s S Us) by now rewrite Go.
+    now apply (copy_user_raw E (raw st) T0).
 Qed.
 
 (** A dataset without metadata copied with [without_meta = false]: the data is copied, then
@@ -1139,15 +1140,14 @@ Lemma copy_raw_late E st o s d :
           (prov (fst (c_copy st o s d false))).
 Proof.
   intros S Us Ud Go. unfold c_copy. destruct (u_copy (raw st) s d) as [T1|] eqn:UC; [|simpl; discriminate].
-  destruct (copy_setup E st o s d T1 S Us Ud Go UC) as (T0 & S0 & NEs & NEd & Psd & G0 & Free & Gpd & -> & _).
-  assert (Hs : t_has T0 s = true) by (unfold t_has; now rewrite G0).
+  destruct (copy_setup E st o s d T1 S Us Ud Go UC) as (T0 & S0 & NEs & NEd & G0 & Free & Gpd & -> & _).
   unfold c_copy_fixups. destruct o as [[|v] at0]; cbn [okind].
   - destruct (reuuid_region _ _ _ _). discriminate.
   - destruct (t_has _ (meta_dir_of s true)).
     + destruct (reuuid_region _ _ _ _). discriminate.
     + intros _. cbn [fst raw next_id prov set_raw].
-      rewrite t_rename_tmap, (sub_data_usub E T0 _ _ s S0 Us) by now rewrite G0.
-      now apply copy_user_raw.
+      rewrite t_rename_tmap, (sub_data_usub E (raw st) _ _ s S Us) by now rewrite Go.
+      now apply (copy_user_raw E (raw st) T0).
 Qed.
 
 (** ** The step theorem with move and copy-without-metadata included *)
